@@ -38,7 +38,7 @@ META = {
     },
 }
 CASES = {'quick': 1200, 'thorough': 50000}
-SECONDS = {'quick': 60, 'thorough': 600}
+SECONDS = {'quick': 300, 'thorough': 600}
 
 
 def normalise(model, lang):
@@ -163,7 +163,10 @@ def _check_case(case, res, count=True):
                 if ext == 'json':
                     json.dump(ld, fh)
                 else:
-                    yaml.safe_dump(ld, fh, sort_keys=False, allow_unicode=True)
+                    # (PyYAML's emitter writes U+0085 / U+2028 / U+2029 raw with allow_unicode and its own loader then
+                    # folds them: such files would not say what the model says)
+                    yaml.safe_dump(ld, fh, sort_keys=False,
+                                   allow_unicode=not any(c in json.dumps(ld, ensure_ascii=False) for c in '\x85\u2028\u2029'))
             try:
                 m = load_model_from_older_version(p, fac, '0.0.39')
             except Exception as exc:
@@ -175,7 +178,9 @@ def _check_case(case, res, count=True):
                 return (f[0], '0.0.39 .%s file: %s' % (ext, f[1]))
         # (iii) sCAD (object ids are shared between assets and attackers)
         aids = {a['id'] for a in am.assets}
-        if all(t['id'] not in aids for t in am.attackers):
+        from ..gen_model import XML_INVALID
+        xml_ok = not any(set(x['name']) & XML_INVALID for x in list(am.assets) + list(am.attackers))   # an XML 1.0 file cannot hold them
+        if all(t['id'] not in aids for t in am.attackers) and xml_ok:
             p = os.path.join(d, 'm.sCAD')
             legacy.write_scad(p, legacy.scad_xml(rng, lang, am, counters))
             try:
